@@ -133,8 +133,67 @@ class C07(Prop):
                 yield ("evaluate_exception_class", {"tree": tree2, "env": env, "seed": sd}); k += 1
             if k % 7 == 0:
                 yield ("evaluate_pure", {"tree": tree, "env": env, "env2": G.environment(rng, pool, tree), "seed": sd}); k += 1
+            if k % 25 == 0:
+                w = lambda: rng.choice(["posix", "nt", "Linux", "x86_64", "6.1.0-13", "CPython", "PyPy", "cpython", "linux", "win32",
+                                        "3.12.1", "a b", "1.0", ""])
+                tup = rng.choice([["3", "12", "1"], ["3", "9", "0"], ["2", "7", "18"], ["3", "13", "0a1+"], ["3", "10", "0rc2"]])
+                yield ("detected_environment", {"probes": {
+                    "impl_version": [rng.choice([3, 7, 0]), rng.choice([0, 9, 13]), rng.choice([0, 1, 17]),
+                                     rng.choice(["final", "final", "alpha", "beta", "candidate"]), rng.choice([0, 1, 2, 15])],
+                    "impl_name": w(), "os_name": w(), "sys_platform": w(), "machine": w(), "release": w(), "system": w(),
+                    "version": w(), "python_version": ".".join(tup), "python_implementation": w(), "python_version_tuple": tup},
+                    "var": rng.choice(["implementation_name", "implementation_version", "os_name", "platform_machine",
+                                       "platform_release", "platform_system", "platform_version", "python_full_version",
+                                       "platform_python_implementation", "python_version", "sys_platform"])}); k += 1
+
+    def _detected_law(self, inp):
+        """PEP 508's table of environment markers: each variable is the named probe of the interpreter; python_version is
+        '.'.join(platform.python_version_tuple()[:2]); implementation_version is format_full_version(sys.implementation.version).
+        The probes are patched in (srccall._x10_apply), default_environment() is compared with the table, and a marker
+        `<var> == <value>` is evaluated with no override to see that evaluation starts from exactly those values."""
+        import srccall
+        markers = R.mods()[0]
+        pr = inp["probes"]
+        v = srccall.version_info()
+        v.major, v.minor, v.micro, v.releaselevel, v.serial = pr["impl_version"]
+        env = srccall.Env([("sys.implementation.version", v), ("sys.implementation.name", pr["impl_name"]), ("os.name", pr["os_name"]),
+                           ("sys.platform", pr["sys_platform"])] +
+                          [("platform." + k, [((), (tuple(pr[k]) if k == "python_version_tuple" else pr[k]))])
+                           for k in ("machine", "release", "system", "version", "python_version", "python_implementation",
+                                     "python_version_tuple")])
+        iver = "{}.{}.{}".format(*pr["impl_version"][:3])
+        if pr["impl_version"][3] != "final":
+            if not pr["impl_version"][3]:
+                return True, "outside the law's domain: empty release level"
+            iver += pr["impl_version"][3][0] + str(pr["impl_version"][4])
+        want = {"implementation_name": pr["impl_name"], "implementation_version": iver, "os_name": pr["os_name"],
+                "platform_machine": pr["machine"], "platform_release": pr["release"], "platform_system": pr["system"],
+                "platform_version": pr["version"], "python_full_version": pr["python_version"],
+                "platform_python_implementation": pr["python_implementation"],
+                "python_version": ".".join(pr["python_version_tuple"][:2]), "sys_platform": pr["sys_platform"]}
+        undo = srccall._x10_apply(env)
+        try:
+            got = dict(markers.default_environment())
+            if got != want:
+                diff = {k: (got.get(k), want.get(k)) for k in set(got) | set(want) if got.get(k) != want.get(k)}
+                return False, f"default_environment() differs from PEP 508's table at (got, expected): {diff}"
+            var, val = inp["var"], want[inp["var"]]
+            if "'" in val or "\\" in val or "\n" in val or "\r" in val:
+                return True, "value not a PEP 508 single-quoted literal; table compared only"
+            m = markers.Marker(f"{var} == '{val}' and '{val}' == {var}")
+            try:
+                r = m.evaluate()
+            except markers.UndefinedComparison:
+                return True, "table compared; comparison undefined for this value"
+            if r is not True:
+                return False, f"Marker({str(m)!r}).evaluate() -> {r!r} although the detected {var} is {val!r}"
+            return True, ""
+        finally:
+            undo()
 
     def check_law(self, law, inp):
+        if law == "detected_environment":
+            return self._detected_law(inp)
         markers = R.mods()[0]
         if "tree" in inp:
             G.check_tree(inp["tree"])
@@ -254,3 +313,9 @@ PROP = with_src(C07(), share=10, functions=[
 # functions call — the digest guard on the class is gone, an edit of a method is a failed proof obligation here
 from srccall import X9_TOK_FUNCS, X9_TOK_THEOREMS, X9_TOK_MODULE  # noqa: E402
 PROP = with_src(PROP, share=10, functions=X9_TOK_FUNCS, module=[X9_TOK_MODULE], theorems=X9_TOK_THEOREMS)
+# x10: default_environment (the detected values of the statement's "effective environment"): which probe goes under which
+# PEP 508 name, python_version = first two components, implementation_version through format_full_version
+PROP = with_src(PROP, share=10, functions=["default_environment"], module=["PkgProofs.Props.Src.DefaultEnv"],
+                theorems=["Src.default_environment_translated", "Src.default_environment_eq_model",
+                          "Src.defaultEnvironment_keys", "Src.detectedNames_nodup", "Src.detectedNames_canonical",
+                          "Src.python_version_two", "Src.Marker.evaluate_eq_model_detected", "Src.exTable_answers"])
